@@ -112,6 +112,18 @@ def _is_small_const(e):
     return r is not None and 0 < r <= SMALL
 
 
+def _strip_snapshot(it, calls=("list", "tuple")):
+    """xs for list(xs), tuple(xs), xs.copy(): the same elements in the same order"""
+    while isinstance(it, tuple) and it:
+        if it[0] == "call" and it[1] in calls and len(it[2]) == 1 and not it[3]:
+            it = it[2][0]
+        elif it[0] == "mcall" and it[2] == "copy" and not it[3] and not it[4]:
+            it = it[1]
+        else:
+            break
+    return it
+
+
 def _canon(e):
     t = e[0]
     if t in ("num", "str", "none", "bool", "nan", "inf", "param", "opaque", "res", "lc", "rat", "class", "func", "impl"):
@@ -132,6 +144,10 @@ def _canon(e):
             return canon(args[0])  # truth value of x (values are compared as truth values where they are used as such)
         if f in SQRT_FUNCS and len(args) == 1:
             return ("call", "sqrt", (canon(args[0]),), ())
+        if f in ("list", "tuple", "set", "sorted", "frozenset") and len(args) == 1 and not kw:
+            a = _strip_snapshot(args[0]) if f in ("list", "tuple") else _strip_snapshot(args[0], calls=())  # the elements of a copy of xs are the elements of xs
+            if a is not args[0]:
+                return ("call", f, (canon(a),), ())
         return ("call", f, tuple(canon(a) for a in args), tuple(sorted((k, canon(v)) for k, v in kw)))
     if t == "cmp":
         if len(e) == 3:
@@ -180,9 +196,7 @@ def _canon(e):
         return ("ite", c, a, b)
     # ---- iteration over a dict: `for k, v in d.items()`, `for v in d.values()` and `for k in d: d[k]` name the same things
     if t == "elem" and len(e) == 3:
-        it0 = e[1]
-        while isinstance(it0, tuple) and it0 and it0[0] == "call" and it0[1] in ("list", "tuple") and len(it0[2]) == 1 and not it0[3]:
-            it0 = it0[2][0]
+        it0 = _strip_snapshot(e[1])
         if it0 is not e[1]:
             return canon(("elem", it0, e[2]))
         di = _dict_iter(e[1])
@@ -216,8 +230,7 @@ def _canon(e):
         except Exception:
             filt = _canon_any(e[4])
         it = e[3]
-        while isinstance(it, tuple) and it and it[0] == "call" and it[1] in ("list", "tuple") and len(it[2]) == 1 and not it[3]:
-            it = it[2][0]  # iterating a snapshot of xs is iterating xs
+        it = _strip_snapshot(it)  # iterating a snapshot of xs is iterating xs
         return ("comp", e[1], _canon_any(e[2]) if not (isinstance(e[2], tuple) and e[2] and isinstance(e[2][0], str)) else canon(e[2]), canon(it) if isinstance(it, tuple) else it, filt)
     if t == "dictmerge" and len(e) == 3:
         a, b = e[1], e[2]
